@@ -53,34 +53,62 @@ theorem edgeOk_sound (h a : String) (ch ca : Spec.Locks.LockClass)
 
 /-! ### reference counting primitives -/
 
-theorem getRq_setRq_same (w : World) (o : Nat) (r r' : Rq) (h : getRq w o = some r) :
-    getRq (setRq w o r') o = some r' := by
-  unfold getRq setRq at *
-  simp only
-  induction w.heap with
+theorem find_map_same (heap : List (Nat × Rq)) (o : Nat) (r' : Rq) (h : (heap.find? (·.1 = o)).isSome) :
+    ((heap.map fun p => if p.1 = o then (o, r') else p).find? (·.1 = o)) = some (o, r') := by
+  induction heap with
   | nil => simp at h
   | cons p t ih =>
     simp only [List.map_cons, List.find?_cons] at h ⊢
     by_cases hp : p.1 = o
     · simp [hp]
-    · simp only [hp, decide_false, if_false] at h ⊢
+    · simp only [hp, decide_false] at h ⊢
       simpa [hp] using ih h
+
+theorem find_map_other (heap : List (Nat × Rq)) (o o' : Nat) (r' : Rq) (hne : o' ≠ o) :
+    ((heap.map fun p => if p.1 = o then (o, r') else p).find? (·.1 = o')) = heap.find? (·.1 = o') := by
+  induction heap with
+  | nil => rfl
+  | cons p t ih =>
+    simp only [List.map_cons, List.find?_cons]
+    by_cases hp : p.1 = o
+    · have hp' : ¬ p.1 = o' := by rw [hp]; exact fun h => hne h.symm
+      have : ¬ o = o' := fun h => hne h.symm
+      simp only [hp, if_true, this, decide_false, hp']
+      exact ih
+    · simp only [hp, if_false]
+      by_cases hq : p.1 = o'
+      · simp [hq]
+      · simp only [hq, decide_false]
+        exact ih
+
+theorem getRq_setRq_same (w : World) (o : Nat) (r r' : Rq) (h : getRq w o = some r) :
+    getRq (setRq w o r') o = some r' := by
+  unfold getRq setRq at *
+  simp only
+  rw [find_map_same w.heap o r' (by cases hf : w.heap.find? (·.1 = o) <;> simp_all)]
+  rfl
 
 theorem getRq_setRq_other (w : World) (o o' : Nat) (r' : Rq) (hne : o' ≠ o) :
     getRq (setRq w o r') o' = getRq w o' := by
   unfold getRq setRq
   simp only
-  induction w.heap with
+  rw [find_map_other w.heap o o' r' hne]
+
+theorem find_filter_other (heap : List (Nat × Rq)) (o o' : Nat) (hne : o' ≠ o) :
+    ((heap.filter (·.1 ≠ o)).find? (·.1 = o')) = heap.find? (·.1 = o') := by
+  induction heap with
   | nil => rfl
   | cons p t ih =>
-    simp only [List.map_cons, List.find?_cons]
     by_cases hp : p.1 = o
-    · have : ¬ o = o' := fun h => hne h.symm
-      have hp' : ¬ p.1 = o' := by rw [hp]; exact this
-      simp [hp, this, hp', ih]
-    · by_cases hq : p.1 = o'
-      · simp [hp, hq]
-      · simp [hp, hq, ih]
+    · have hp' : ¬ p.1 = o' := by rw [hp]; exact fun h => hne h.symm
+      have e1 : (p :: t).filter (·.1 ≠ o) = t.filter (·.1 ≠ o) := by simp [List.filter_cons, hp]
+      have e2 : (p :: t).find? (·.1 = o') = t.find? (·.1 = o') := by simp [List.find?_cons, hp']
+      rw [e1, e2]; exact ih
+    · simp only [List.filter_cons, hp, ne_eq, not_false_eq_true, decide_true, if_true, List.find?_cons]
+      by_cases hq : p.1 = o'
+      · simp [hq]
+      · simp only [hq, decide_false]
+        exact ih
 
 /-- **C17 (release).** Dropping a reference to an object with further holders only lowers its count … -/
 theorem freerq_keeps (w : World) (o : Nat) (r : Rq) (h : getRq w o = some r) (h2 : 2 ≤ r.refs) :
@@ -107,7 +135,7 @@ theorem freerq_last (w : World) (o : Nat) (r : Rq) (h : getRq w o = some r) (h1 
       simp only [List.mem_filter] at hx
       simpa using hx.2
     rw [this]; rfl
-  · rfl
+  · trivial
 
 /-- releasing one object never touches another -/
 theorem freerq_other (w : World) (o o' : Nat) (hne : o' ≠ o) : getRq (freerq w o) o' = getRq w o' := by
@@ -119,17 +147,7 @@ theorem freerq_other (w : World) (o o' : Nat) (hne : o' ≠ o) : getRq (freerq w
     split
     · unfold getRq
       simp only
-      congr 1
-      induction w.heap with
-      | nil => rfl
-      | cons p t ih =>
-        simp only [List.filter_cons, List.find?_cons]
-        by_cases hp : p.1 = o
-        · have hp' : ¬ p.1 = o' := by rw [hp]; exact fun h => hne h.symm
-          simp [hp, hp', ih]
-        · by_cases hq : p.1 = o'
-          · simp [hp, hq]
-          · simp [hp, hq, ih]
+      rw [find_filter_other w.heap o o' hne]
     · exact getRq_setRq_other w o o' _ hne
 
 /-- a released object cannot be released again: `freerq` on an absent object does nothing -/
